@@ -34,7 +34,7 @@ func c20Alias(t *rapid.T, name string) string {
 }
 
 func c20Content(name string, gen int) string {
-	body := fmt.Sprintf("%s v%d g={{ g }}{%% if 1 %%}\nX{%% endif %%}", name, gen)
+	body := fmt.Sprintf("%s v%d g={{ g }}{{ verif_dg }}{%% if 1 %%}\nX{%% endif %%}", name, gen) // (verif_dg: a global of the default set only)
 	if name == "/c.tpl" {
 		body += `{{ "up"|upper }}` // set 0 bans the upper filter: /c.tpl never compiles there
 	}
